@@ -40,8 +40,8 @@ def reset_rule(index, rep):
         it.classes = {"AnimalSpecies": cls}
 
         def hook(interp, d, a, kw, node):
-            if d == "self.net_energy_required_per_species":
-                return Rat.atom(("required-this-month",))
+            if d == "self.net_energy_required_per_month":
+                return Rat.atom(("required-per-head",))
             if d == "Food":
                 vals = list(a) + [kw[k_] for k_ in ("kcals", "fat", "protein") if k_ in kw]
                 return Obj(None, {"kcals": vals[0] if vals else None}, "food")
@@ -59,10 +59,16 @@ def reset_rule(index, rep):
         raise AnalysisError(f"reset_NE_balance outside the analysed fragment: {e}")
     if not leaves:
         raise AnalysisError("reset_NE_balance: no path")
+    from .symx import constraints_of
+    herd_ = Rat.atom(("herd",))
     for _, dec, obj, it in leaves:
         bal = obj.attrs.get("NE_balance")
         kc = bal.attrs.get("kcals") if isinstance(bal, Obj) else None
-        ok = isinstance(kc, Rat) and kc == Rat.atom(("required-this-month",))
+        want = Rat.atom(("required-per-head",)) * herd_
+        # on a path taken only by an empty herd (herd == 0 decided) the requirement is 0 however it is written
+        if any(op_ == "==" and (e_ == herd_ or e_ == Rat.const(0) - herd_) for e_, op_ in constraints_of(it, dec)):
+            want = want.subst({("herd",): Rat.const(0)})
+        ok = isinstance(kc, Rat) and kc == want
         rep.check(ok, rule, "reset: balance = this month's requirement|" + (",".join(f"{k}={'T' if v else 'F'}" for k, v in sorted(dec.items())) or "always"),
                   "a path through reset_NE_balance leaves the balance as it was (last month's unfilled deficit would be fed as this month's "
                   "requirement: a herd that is gone keeps eating, and is delivered more than it requires)", loc=loc(ANIM, fn), detail=str(kc))
